@@ -48,7 +48,7 @@ def run(ctx):
     exe = ctx.harness(b, "asan")
     facts = ctx.facts(b, ["macros", "names"])
     # 1. the model: invariants and action properties, exhaustive within the bounds of MC_C14.cfg
-    r = ctx.tlc_must_pass("MC_C14", workers=16, heap="8g")
+    r = ctx.tlc_must_pass("MC_C14", cfg="MC_C14" if ctx.quick else "MC_C14_thorough", workers=16, heap="8g")
     mc_states, mc_trans = r["distinct"], r["generated"]
     # 2. every transition of the (smaller) model graph becomes a program
     r = ctx.tlc("MC_C14", cfg="MC_C14_emit", workers=1, heap="4g")
@@ -93,7 +93,7 @@ def run(ctx):
     ctx.states += 0
     return verdict(ctx, "model_checking", {
         "distinct_nontrivial": nhist,
-        "rule": "model: XrlCrystalArrays explored exhaustively (MC_C14.cfg: 2 user arrays + built-in, 3 names x 2 geometries, files of <= 2 entries with 6 kinds, 2 copy slots, <= 5 operations): invariants Consistent, CopiesIndependent and the action properties; conformance: one program per transition of the MC_C14_emit graph (%d programs) replayed into the real library under ASan/UBSan, plus %d seeded random histories of length <= %d; every recorded step validated by TLC against Outcomes(st, op); plus damaged crystal files (one to three bytes deleted, duplicated or replaced) read into user arrays and the built-in collection under ASan, judged against Trace_C14f: refused => unchanged, accepted => old members kept, names strictly sorted, count and retrievability intact (result, listed names sorted, n_crystal, capacity, returned crystals, audits). non-trivial = histories validated." % (nprog, nh, maxlen),
+        "rule": "model: XrlCrystalArrays explored exhaustively (MC_C14.cfg: 2 user arrays + built-in, 3 names x 2 geometries, files of <= 2 entries with 6 kinds, 2 copy slots, <= 5 operations (6 in the thorough tier)): invariants Consistent, CopiesIndependent and the action properties; conformance: one program per transition of the MC_C14_emit graph (%d programs) replayed into the real library under ASan/UBSan, plus %d seeded random histories of length <= %d; every recorded step validated by TLC against Outcomes(st, op); plus damaged crystal files (one to three bytes deleted, duplicated or replaced) read into user arrays and the built-in collection under ASan, judged against Trace_C14f: refused => unchanged, accepted => old members kept, names strictly sorted, count and retrievability intact (result, listed names sorted, n_crystal, capacity, returned crystals, audits). non-trivial = histories validated." % (nprog, nh, maxlen),
         "damaged_files": nfuzz, "model_states": mc_states, "model_transitions": mc_trans, "programs_from_model_edges": nprog, "random_histories": nh,
     }, ["built-in capacity in replayed programs is set through the public field Crystal_arr.n_alloc (5% of the random histories fill the real 512 slots instead)",
         "generated crystal files use lines < 100 bytes (the reader's line buffer)", "ASan/UBSan/LSan reports end a history with an abort event"], extra_violations=extra)
